@@ -149,3 +149,60 @@ func extendableAccept(p *Pat) bool {
 	}
 	return false
 }
+
+// ---- emission order (known finding "emit-order") ---------------------------------------------
+// The engine reports the pending longest match of a start as soon as that start has no partial match
+// left, even while an EARLIER start still has one; the SKIP rule then discards the earlier start.
+// firstOffense says at which row (index in the partition) that first happens for a start that is
+// not the leftmost allowed one with a valid match; -1 if never. Derived from the reference's own
+// enumeration (complete lengths and lengths of partial labelings still waiting for a row).
+
+func readyAt(si *startInfo, s, n int) int {
+	for t := s; t < n; t++ {
+		d := t - s + 1
+		if si.alive[d] {
+			continue
+		}
+		for l := range si.lens {
+			if l <= d {
+				return t
+			}
+		}
+	}
+	return n // only the flush at Stop resolves it
+}
+
+func firstOffense(c Case, infos []startInfo, n int) int {
+	ns := 0
+	for {
+		s := -1
+		for x := ns; x < n; x++ {
+			if infos[x].maxLen >= 1 {
+				s = x
+				break
+			}
+		}
+		if s < 0 {
+			return -1
+		}
+		T := readyAt(&infos[s], s, n)
+		off := -1
+		for s2 := s + 1; s2 < n && s2 <= T; s2++ {
+			if infos[s2].maxLen < 1 {
+				continue
+			}
+			if t2 := readyAt(&infos[s2], s2, n); t2 < T && (off < 0 || t2 < off) {
+				off = t2
+			}
+		}
+		if off >= 0 {
+			return off
+		}
+		switch c.Skip {
+		case "", "past":
+			ns = s + infos[s].maxLen
+		default:
+			ns = s + 1 // smallest possible next start
+		}
+	}
+}
